@@ -5,6 +5,7 @@ CONSTANTS
   Alpha = "q1"
   MaxLen = 4
   MaxDepth = 5
+  Lax = FALSE
 INVARIANTS Lattice WellNested ContentModelOK DocOrder RefOK
 CONSTRAINT Emit
 CHECK_DEADLOCK FALSE
